@@ -291,10 +291,16 @@ def _unlimit_stack():
 
 
 def load_known():
+    out = []
     p = os.path.join(VERIF, 'known_findings.json')
-    if not os.path.exists(p):
-        return []
-    return json.load(open(p)).get('findings', [])
+    if os.path.exists(p):
+        out += json.load(open(p)).get('findings', [])
+    d = os.path.join(VERIF, 'known_findings.d')
+    if os.path.isdir(d):
+        for fn in sorted(os.listdir(d)):
+            if fn.endswith('.json'):
+                out += json.load(open(os.path.join(d, fn))).get('findings', [])
+    return out
 
 
 class Ctx:
